@@ -656,6 +656,16 @@ func replayRx(res *mbt.Result, l *rLine, note func(string), exclusive bool) (aga
 	if wantStop || realEffect {
 		res.Distinct(fmt.Sprintf("%s/%+v/%d/%+v", l.Rx, l.St0, len(l.Pre), last.M))
 	}
+	// the aftermath: whatever the message was (accepted, refused, peer stopped), the reactor must still serve an
+	// honest peer on its writer paths and stop - each step under a timeout
+	if bad := x.aftermath(l); bad != "" {
+		t := last.M.T
+		if l.Rx == "bc" {
+			res.Mismatch("peer:bc:hang:"+t, fmt.Sprintf("%s: Receive returned, but afterwards %s; specified (PeerReactors!BcMutexFree): no lock outlives Receive, the aftermath returns", where, bad), detail)
+		} else {
+			res.Mismatch(sig("hang-aftermath"), fmt.Sprintf("%s: Receive returned, but afterwards %s", where, bad), detail)
+		}
+	}
 	if !wantStop {
 		if bad := rxRoundTrip(l.Rx, bz); bad != "" {
 			res.Mismatch(sig("roundtrip"), fmt.Sprintf("%s: %s", where, bad), detail)
@@ -753,6 +763,73 @@ func rxRoundTrip(rx string, bz []byte) (bad string) {
 			if !reflect.DeepEqual(m1, m2) {
 				return "decode(encode(M)) differs from M"
 			}
+		}
+	}
+	return ""
+}
+
+// aftermath: after the message under test an honest second peer uses the reactor's writer / reader paths, then the
+// reactor is stopped; every step under a timeout.  Returns "" or what did not return.
+func (x *rxRig) aftermath(l *rLine) string {
+	r := x.d.Rig
+	p2 := NewStubPeer(false)
+	r.ConR.InitPeer(p2)
+	p2p.AddPeerToSwitchPeerSet(r.Sw, p2)
+	step := func(what string, f func()) string {
+		o := Guard(3*time.Second, false, f)
+		if o.Hung {
+			return what + " did not return within 3 s"
+		}
+		if o.Panic != "" {
+			return what + " panicked: " + o.Panic
+		}
+		return ""
+	}
+	var steps []struct {
+		what string
+		f    func()
+	}
+	add := func(what string, f func()) {
+		steps = append(steps, struct {
+			what string
+			f    func()
+		}{what, f})
+	}
+	switch l.Rx {
+	case "bc":
+		if !r.BcR.VerifPeerMutexFree() {
+			return "the reactor's mutex is still held (TryLock fails): a lock taken in Receive was not released"
+		}
+		top := uint64(l.St0.Top)
+		status, _ := bcr.EncodeMsg(&kbc.StatusResponse{Base: 0, Height: top + 5})
+		noblock, _ := bcr.EncodeMsg(&kbc.NoBlockResponse{Height: top + 1})
+		good, _ := x.bcMsg(&rMsg{T: "block", Kind: "good"})
+		add("an honest peer's StatusResponse (Receive)", func() { r.BcR.Receive(bcr.BlockchainChannel, p2, status) })
+		add("the event loop's setMaxPeerHeight for it (a writer on r.mtx)", func() { r.BcR.VerifPeerSetMaxPeerHeight(top + 5) })
+		add("the honest peer's BlockResponse (Receive)", func() { r.BcR.Receive(bcr.BlockchainChannel, p2, good) })
+		add("the honest peer's NoBlockResponse (Receive)", func() { r.BcR.Receive(bcr.BlockchainChannel, p2, noblock) })
+		add("BlockchainReactor.Stop", func() { _ = r.BcR.Stop() })
+	case "tx":
+		r.TxR.AddPeer(p2)
+		ann, _ := x.txMsg(&rMsg{T: "hashes", N: 1, Known: 0}, nil)
+		req, _ := x.txMsg(&rMsg{T: "request", N: 1, Known: 0}, nil)
+		add("an honest peer's transaction announcement (Receive)", func() { r.TxR.Receive(tx_pool.TxpoolChannel, p2, ann) })
+		add("an honest peer's transaction request (Receive)", func() { r.TxR.Receive(tx_pool.TxpoolChannel, p2, req) })
+		add("removing the honest peer (RemovePeer)", func() { r.TxR.RemovePeer(p2, "done") })
+		add("tx Reactor.Stop", func() { _ = r.TxR.Stop() })
+	case "ev":
+		empty, _ := x.evMsg(&rMsg{T: "list"})
+		add("an honest peer's empty evidence list (Receive)", func() { r.EvR.Receive(evidence.EvidenceChannel, p2, empty) })
+		add("reading the evidence pool", func() { _ = r.Nd.EvPool.Size(); _, _ = r.Nd.EvPool.PendingEvidence(1 << 20) })
+		add("evidence Reactor.Stop", func() { _ = r.EvR.Stop() })
+	case "pex":
+		req, _ := x.pexMsg(&rMsg{T: "request"})
+		add("an honest peer's PexRequest (Receive)", func() { r.PexR.Receive(pex.PexChannel, p2, req) })
+		add("writing the address book", func() { r.Book.MarkGood(p2.ID()); _ = r.Book.Size() })
+	}
+	for _, s := range steps {
+		if bad := step(s.what, s.f); bad != "" {
+			return bad
 		}
 	}
 	return ""
